@@ -2,15 +2,17 @@ import HeimdallModel.Lemmas.EntryView
 /-!
 # C13 — all three entry points decide alike and show the pipeline the same request
 
-Model: `Model/EntryView.lean` (`serve`, `mkCtx`, `Ctx.withReq`; `Impl.fixed` = the code with the patches
-`fixes/C13-1 … C13-5`, `Impl.original` = the code without them). Reference semantics: `Spec/EntryView.lean`
+Model: `Model/EntryView.lean` (`serve`, `mkCtx`, `Ctx.withReq`; `Impl.fixed` = the code of /repo, i.e. with the patches
+`fixes/C13-1 … C13-5`, `Impl.next` = with the proposed `fixes/C13-6` as well, `Impl.original` = the code without any).
+The theorems hold for every implementation and request with `Spec.covered I lr`. Reference semantics: `Spec/EntryView.lean`
 (`Spec.obj`, `Spec.funcs`, `Spec.serve`, `Spec.answer`).
 
 Everything is stated for all logical requests (any method, host, path, query, header lines, body), all rule sets (any
 routing table of `Model/Repo.lean`, any pipelines built from conditions and templates over the request view), any
 decoder library, both ways Envoy delivers a body, all three entry points. The two side conditions are the decidable
-predicates `Spec.wellFormed` (what is a logical request: a path in valid encoding, header names that are tokens and
-none of the hop headers, at most one `Cookie` line) and `Spec.singleValued` (no upstream header collected twice — the
+predicates `Spec.covered` (a repaired implementation; a logical request: a path `net/http` accepts — octets that may
+not stand in a path only if the Envoy request context encodes them too, known finding `C13-envoy-raw-path-octets` —,
+header names that are tokens and none of the hop headers, at most one `Cookie` line) and `Spec.singleValued` (no upstream header collected twice — the
 input class of the known finding `C13-first-header-value`).
 -/
 namespace Heimdall.Props.C13
@@ -24,15 +26,19 @@ and query as written, no captures yet) and the reference view functions (`Header
 and for `Host`, `Cookie`, decoded `Body`) — whichever carrier brought the request (HTTP/1.1 message parsed by
 `net/http`; `CheckRequest` with the body in either field). Only the `Headers()` map differs, and exactly by the `Host`
 entry (`Spec.headersMapAt`, known finding `C13-headers-host-entry`). -/
-theorem c13_same_view (D : Decoder) (pack : Bool) (lr : LReq) (hwf : Spec.wellFormed lr = true) (ep : EP) :
-    mkCtx Impl.fixed D pack ep lr =
+theorem c13_same_view (D : Decoder) (pack : Bool) {I : Impl} (lr : LReq) (hwf : Spec.covered I lr = true) (ep : EP) :
+    mkCtx I D pack ep lr =
       some { ctx := { caches := true, fresh := Spec.obj lr }, funcs := Spec.funcs D lr,
              headersMap := Spec.headersMapAt ep lr, client := Spec.headersMap lr } := by
-  simp only [Spec.wellFormed, Bool.and_eq_true] at hwf
-  obtain ⟨⟨hp, hh⟩, hc⟩ := hwf
+  simp only [Spec.covered, Spec.repaired, Spec.wellFormed, Bool.and_eq_true, Bool.or_eq_true] at hwf
+  obtain ⟨⟨⟨⟨⟨⟨hI1, hI2⟩, hI3⟩, hI4⟩, hI5⟩, ⟨hp, hh⟩, hc⟩, henc⟩ := hwf
+  have hq : '?' ∉ lr.rawPath := by
+    simp only [Spec.validPath, Bool.and_eq_true, Bool.not_eq_true'] at hp
+    exact not_mem_of_contains_false hp.1.1.2
   cases ep with
   | envoy =>
-    simp only [mkCtx, envoyObj_eq pack lr hp, envoyFuncs_eq D pack lr hh hc, envoyHeaders_toCheck pack lr hh]
+    simp only [mkCtx, envoyObj_eq I pack lr hI2 hq henc, envoyFuncs_eq I D pack lr hI3 hI4 hI5 hh hc,
+      envoyHeaders_toCheck pack lr hh, hI1]
     rfl
   | decision =>
     obtain ⟨r, hr, hm, hho, ht, he, hq, hhd, hb⟩ := toHTTP_some lr hp
@@ -54,18 +60,32 @@ def witnessReq : LReq :=
                 (b!"Cookie", b!"sid=\"abc\"; t=1"), (b!"content-type", b!"application/json")],
     body := some b!"{\"k\":\"v\"}" }
 
-example : Spec.wellFormed witnessReq = true := by decide
+example : Spec.covered Impl.fixed witnessReq = true := by decide
+
+/-- a request whose path contains octets that may not stand in a path, next to an encoded slash -/
+def witnessWide : LReq := { witnessReq with rawPath := b!"/files/a%2Fb<c>|d" }
+
+/-- covered once the Envoy request context encodes such octets as well (proposed `fixes/C13-6`), not before -/
+example : Spec.covered Impl.next witnessWide = true ∧ Spec.covered Impl.fixed witnessWide = false := by decide
 
 /-- what the reference view of that request is -/
 example : (Spec.obj witnessReq).url.path = b!"/files/a/b c" ∧
     Spec.header witnessReq b!"X-TAG" = b!"a,b" ∧ Spec.header witnessReq b!"host" = b!"app.example.com" ∧
     Spec.cookie witnessReq b!"sid" = b!"abc" := by decide
 
-/-- `net/url` round trip: for a path in valid encoding `URL.EscapedPath()` of the parsed request target is the path
-    as written and `RawQuery` the query as written (the premise of `requestcontext.extractURL`) -/
-theorem c13_go_url_roundtrip (lr : LReq) (h : Spec.validPath lr.rawPath = true) :
-    ∃ u, goParseTarget lr.target = some u ∧ u.escapedPath = lr.rawPath ∧ u.rawQuery = lr.query :=
-  go_url_roundtrip lr h
+/-- **The raw path is the received spelling.** For every path `net/http` accepts — whatever Go's URL parser makes of
+it — the raw path the HTTP based services show is the path as the client wrote it, with exactly the octets encoded
+(`%XX`, upper case) that may not stand in a path; no escape of the client is re-spelled or decoded (so `%2F` next to a
+`<` stays `%2F`); the query is the query as written. -/
+theorem c13_http_raw_path_is_received_spelling (lr : LReq) (h : Spec.validPath lr.rawPath = true) :
+    ∃ u, goParseTarget lr.target = some u ∧ httpEscapedPath u = receivedL lr.rawPath ∧ u.rawQuery = lr.query :=
+  http_received_path lr h
+
+/-- a path in valid encoding is shown as written -/
+theorem c13_valid_path_is_kept (p : Bytes) (h : validEncodedPath p = true) : receivedL p = p :=
+  receivedL_of_valid p h
+
+example : receivedL b!"/a b/%2f<x>/é%41" = b!"/a%20b/%2f%3Cx%3E/%E9%41" := by decide
 
 /-- header names are case-insensitive in both carriers: Envoy's lower-cased, merged header map, canonicalised, *is*
     the map `net/http` builds (same keys, same order, values joined) -/
@@ -94,8 +114,8 @@ theorem c13_uncached_view_forgets (c : Ctx) (hc : c.caches = false) (blocks : Li
 of each entry point is the answer the reference semantics gives for the run of the rule set on the reference view —
 decision, the view shown to the mechanisms (with the captures), cookies and header names handed to the upstream side;
 header values as `Spec.handOver` says. -/
-theorem c13_refines_reference (cfg : Cfg) (pack : Bool) (lr : LReq) (hwf : Spec.wellFormed lr = true) (ep : EP) :
-    serve Impl.fixed cfg pack ep lr = some (Spec.delivered cfg.respond lr ep (Spec.serve cfg lr)) := by
+theorem c13_refines_reference (cfg : Cfg) (pack : Bool) {I : Impl} (lr : LReq) (hwf : Spec.covered I lr = true) (ep : EP) :
+    serve I cfg pack ep lr = some (Spec.delivered cfg.respond lr ep (Spec.serve cfg lr)) := by
   simp only [serve, c13_same_view cfg.D pack lr hwf ep, Option.map_some, Spec.serve]
   exact congrArg some (execute_caching cfg lr (Spec.funcs cfg.D lr) ep (Spec.obj lr))
 
@@ -124,9 +144,9 @@ theorem c13_delivered_is_answer (R : Respond) (lr : LReq) (ep : EP) (r : Spec.Ru
 collected twice, the three entry points give the answer of the reference semantics: the same decision, the same
 request view shown to the mechanisms, the same headers and cookies for the upstream side (a proxy additionally needs
 an upstream, which only the default rule lacks). -/
-theorem c13_same_answer (cfg : Cfg) (pack : Bool) (lr : LReq) (hwf : Spec.wellFormed lr = true)
+theorem c13_same_answer (cfg : Cfg) (pack : Bool) {I : Impl} (lr : LReq) (hwf : Spec.covered I lr = true)
     (hsv : Spec.singleValued (Spec.serve cfg lr) = true) (ep : EP) :
-    serve Impl.fixed cfg pack ep lr = some (Spec.answer cfg.respond lr ep (Spec.serve cfg lr)) := by
+    serve I cfg pack ep lr = some (Spec.answer cfg.respond lr ep (Spec.serve cfg lr)) := by
   rw [c13_refines_reference cfg pack lr hwf ep, c13_delivered_is_answer _ _ ep _ (Or.inr hsv)]
 
 example : Spec.singleValued
@@ -134,26 +154,26 @@ example : Spec.singleValued
 
 /-- the HTTP decision service and the Envoy gRPC decision service answer identically (`respond.with.accepted.code`
     only says how the HTTP decision service spells "allowed"; it is left unset here) -/
-theorem c13_decision_eq_envoy (cfg : Cfg) (pack : Bool) (lr : LReq) (hwf : Spec.wellFormed lr = true)
+theorem c13_decision_eq_envoy (cfg : Cfg) (pack : Bool) {I : Impl} (lr : LReq) (hwf : Spec.covered I lr = true)
     (hsv : Spec.singleValued (Spec.serve cfg lr) = true) (hacc : cfg.respond.accepted = 0) :
-    serve Impl.fixed cfg pack .decision lr = serve Impl.fixed cfg pack .envoy lr := by
+    serve I cfg pack .decision lr = serve I cfg pack .envoy lr := by
   rw [c13_same_answer cfg pack lr hwf hsv, c13_same_answer cfg pack lr hwf hsv]
   simp only [Spec.answer, Spec.answerWith, okStatus, orDefault, hacc]
   cases (Spec.serve cfg lr).dec <;> simp
 
 /-- … and so does the proxy service, for every rule that names an upstream (every rule but the default rule) -/
-theorem c13_proxy_eq_decision (cfg : Cfg) (pack : Bool) (lr : LReq) (hwf : Spec.wellFormed lr = true)
+theorem c13_proxy_eq_decision (cfg : Cfg) (pack : Bool) {I : Impl} (lr : LReq) (hwf : Spec.covered I lr = true)
     (hsv : Spec.singleValued (Spec.serve cfg lr) = true) (hup : (Spec.serve cfg lr).isDefault = false)
     (hacc : cfg.respond.accepted = 0) :
-    serve Impl.fixed cfg pack .proxy lr = serve Impl.fixed cfg pack .decision lr := by
+    serve I cfg pack .proxy lr = serve I cfg pack .decision lr := by
   rw [c13_same_answer cfg pack lr hwf hsv, c13_same_answer cfg pack lr hwf hsv]
   simp only [Spec.answer, Spec.answerWith, okStatus, orDefault, hacc, hup]
   cases (Spec.serve cfg lr).dec <;> simp
 
 /-- **Same decision**, with no condition on the run: whatever the pipeline collects, the three entry points decide
 alike (a proxy without upstream answers with an internal error instead of forwarding). -/
-theorem c13_same_decision (cfg : Cfg) (pack : Bool) (lr : LReq) (hwf : Spec.wellFormed lr = true) (ep : EP) :
-    (serve Impl.fixed cfg pack ep lr).map (·.dec) = some (Spec.decAt ep (Spec.serve cfg lr)) := by
+theorem c13_same_decision (cfg : Cfg) (pack : Bool) {I : Impl} (lr : LReq) (hwf : Spec.covered I lr = true) (ep : EP) :
+    (serve I cfg pack ep lr).map (·.dec) = some (Spec.decAt ep (Spec.serve cfg lr)) := by
   rw [c13_refines_reference cfg pack lr hwf ep]
   simp only [Option.map_some, Spec.delivered, answerWith_dec]
 
@@ -161,8 +181,8 @@ theorem c13_same_decision (cfg : Cfg) (pack : Bool) (lr : LReq) (hwf : Spec.well
 `respond.with.<d>.code` (or the default of the class) — as HTTP status by the decision and the proxy service, as
 status of the denied response by the Envoy gRPC service; "allowed" is 200 / OK (`accepted.code` at the decision
 service). -/
-theorem c13_same_status (cfg : Cfg) (pack : Bool) (lr : LReq) (hwf : Spec.wellFormed lr = true) (ep : EP) :
-    (serve Impl.fixed cfg pack ep lr).map (·.status) =
+theorem c13_same_status (cfg : Cfg) (pack : Bool) {I : Impl} (lr : LReq) (hwf : Spec.covered I lr = true) (ep : EP) :
+    (serve I cfg pack ep lr).map (·.status) =
       some (if Spec.decAt ep (Spec.serve cfg lr) = .ok then okStatus cfg.respond ep
             else cfg.respond.code (Spec.decAt ep (Spec.serve cfg lr))) := by
   rw [c13_refines_reference cfg pack lr hwf ep]
@@ -176,25 +196,25 @@ example : let R : Respond := { argument := 422, authentication := 407, authoriza
 
 /-- **Same refusal**: if the request is not allowed, the three entry points give the very same answer — with no
 condition on the run or the response configuration -/
-theorem c13_same_refusal (cfg : Cfg) (pack : Bool) (lr : LReq) (hwf : Spec.wellFormed lr = true) (e1 e2 : EP)
+theorem c13_same_refusal (cfg : Cfg) (pack : Bool) {I : Impl} (lr : LReq) (hwf : Spec.covered I lr = true) (e1 e2 : EP)
     (h1 : Spec.decAt e1 (Spec.serve cfg lr) ≠ .ok) (h2 : Spec.decAt e2 (Spec.serve cfg lr) ≠ .ok)
     (hd : Spec.decAt e1 (Spec.serve cfg lr) = Spec.decAt e2 (Spec.serve cfg lr)) :
-    serve Impl.fixed cfg pack e1 lr = serve Impl.fixed cfg pack e2 lr := by
+    serve I cfg pack e1 lr = serve I cfg pack e2 lr := by
   rw [c13_refines_reference cfg pack lr hwf, c13_refines_reference cfg pack lr hwf]
   simp only [Spec.delivered, answerWith_refused _ _ _ _ _ h1, answerWith_refused _ _ _ _ _ h2, hd]
 
 /-- **Same view for the mechanisms**, with no condition on the run -/
-theorem c13_same_mechanism_view (cfg : Cfg) (pack : Bool) (lr : LReq) (hwf : Spec.wellFormed lr = true) (ep : EP) :
-    (serve Impl.fixed cfg pack ep lr).map (·.seen.map fun s => (s.obj, s.stable)) =
+theorem c13_same_mechanism_view (cfg : Cfg) (pack : Bool) {I : Impl} (lr : LReq) (hwf : Spec.covered I lr = true) (ep : EP) :
+    (serve I cfg pack ep lr).map (·.seen.map fun s => (s.obj, s.stable)) =
       some ((Spec.serve cfg lr).view.map fun o => (o, true)) := by
   rw [c13_refines_reference cfg pack lr hwf ep]
   simp only [Option.map_some, Spec.delivered, answerWith_seen]
   cases (Spec.serve cfg lr).view <;> rfl
 
 /-- **Same cookies and same header names for the upstream side**, with no condition on the run -/
-theorem c13_same_upstream_cookies (cfg : Cfg) (pack : Bool) (lr : LReq) (hwf : Spec.wellFormed lr = true)
-    (e1 e2 : EP) (o1 o2 : Outcome) (h1 : serve Impl.fixed cfg pack e1 lr = some o1)
-    (h2 : serve Impl.fixed cfg pack e2 lr = some o2) (hd1 : o1.dec = .ok) (hd2 : o2.dec = .ok) :
+theorem c13_same_upstream_cookies (cfg : Cfg) (pack : Bool) {I : Impl} (lr : LReq) (hwf : Spec.covered I lr = true)
+    (e1 e2 : EP) (o1 o2 : Outcome) (h1 : serve I cfg pack e1 lr = some o1)
+    (h2 : serve I cfg pack e2 lr = some o2) (hd1 : o1.dec = .ok) (hd2 : o2.dec = .ok) :
     o1.upCookies = o2.upCookies ∧ o1.upHeaders.map (·.1) = o2.upHeaders.map (·.1) := by
   rw [c13_refines_reference cfg pack lr hwf] at h1 h2
   cases h1; cases h2
@@ -207,8 +227,8 @@ theorem c13_same_upstream_cookies (cfg : Cfg) (pack : Bool) (lr : LReq) (hwf : S
 /-- **The pipeline's header wins, at every entry point.** What the upstream application is shown under a header name
 the pipeline handed over is the pipeline's value — whatever the client sent under that name, in whatever spelling and
 however often —, and every other header of the client is passed on. -/
-theorem c13_pipeline_header_replaces_client_header (cfg : Cfg) (pack : Bool) (lr : LReq)
-    (hwf : Spec.wellFormed lr = true) (ep : EP) (out : Outcome) (hs : serve Impl.fixed cfg pack ep lr = some out)
+theorem c13_pipeline_header_replaces_client_header (cfg : Cfg) (pack : Bool) {I : Impl} (lr : LReq)
+    (hwf : Spec.covered I lr = true) (ep : EP) (out : Outcome) (hs : serve I cfg pack ep lr = some out)
     (hok : out.dec = .ok) (name : Bytes) :
     EntryView.lookup name out.upSees =
       (EntryView.lookup name out.upHeaders).orElse fun _ => EntryView.lookup name (Spec.headersMap lr) := by
@@ -225,10 +245,10 @@ example : overrideHeaders [(b!"X-User", b!"mallory"), (b!"Accept", b!"*/*")] [(b
 /-- **Captures survive.** When the lookup finds a rule with captured path values `ps`, the view every mechanism of
 that rule is shown — at every entry point — carries exactly these values, decoded according to the rule's
 `allow_encoded_slashes` setting, and `ctx.Request()` keeps returning that object. -/
-theorem c13_captures_survive (cfg : Cfg) (pack : Bool) (lr : LReq) (hwf : Spec.wellFormed lr = true) (ep : EP)
+theorem c13_captures_survive (cfg : Cfg) (pack : Bool) {I : Impl} (lr : LReq) (hwf : Spec.covered I lr = true) (ep : EP)
     (v : RVal) (ps : List (String × String))
     (hfind : cfg.repo.findRule cfg.hasDefault (Spec.obj lr).toReqView = .rule v ps)
-    (out : Outcome) (s : Seen) (hs : serve Impl.fixed cfg pack ep lr = some out) (hseen : out.seen = some s) :
+    (out : Outcome) (s : Seen) (hs : serve I cfg pack ep lr = some out) (hseen : out.seen = some s) :
     s.stable = true ∧
     s.obj.captures = some ((toBytesPairs (lastWins ps)).map fun kv =>
       (kv.1, (unescapeCapture v.esh (str kv.2)).toList)) := by
@@ -251,8 +271,8 @@ theorem c13_captures_survive (cfg : Cfg) (pack : Bool) (lr : LReq) (hwf : Spec.w
     rfl
 
 /-- how Envoy delivers the body (`body` or `raw_body`) is irrelevant -/
-theorem c13_body_field_irrelevant (cfg : Cfg) (lr : LReq) (hwf : Spec.wellFormed lr = true) (ep : EP) :
-    serve Impl.fixed cfg true ep lr = serve Impl.fixed cfg false ep lr := by
+theorem c13_body_field_irrelevant (cfg : Cfg) {I : Impl} (lr : LReq) (hwf : Spec.covered I lr = true) (ep : EP) :
+    serve I cfg true ep lr = serve I cfg false ep lr := by
   rw [c13_refines_reference cfg true lr hwf ep, c13_refines_reference cfg false lr hwf ep]
 
 /-! ## Known findings (kept in the model; the statements above say exactly where they bite) -/
@@ -280,6 +300,15 @@ theorem c13_headers_map_partial (lr : LReq) :
     Spec.headersMapAt .decision lr = (hostKey, lr.host) :: Spec.headersMapAt .envoy lr ∧
     Spec.headersMapAt .proxy lr = Spec.headersMapAt .decision lr := by
   simp [Spec.headersMapAt]
+
+/-- `C13-envoy-raw-path-octets`: for a path with octets that may not stand in a path the Envoy request context of
+    /repo (`Impl.fixed`) keeps the octets in the raw path, the HTTP based services (and the reference view) show them
+    encoded — the decoded path is the same; with the proposed `fixes/C13-6` (`Impl.next`) the views coincide
+    (`c13_same_view` for `Impl.next`) -/
+example : (envoyObj Impl.fixed (toCheck true witnessWide)).url.rawPath = b!"/files/a%2Fb<c>|d" ∧
+    (Spec.obj witnessWide).url.rawPath = b!"/files/a%2Fb%3Cc%3E%7Cd" ∧
+    (envoyObj Impl.fixed (toCheck true witnessWide)).url.path = (Spec.obj witnessWide).url.path ∧
+    envoyObj Impl.next (toCheck true witnessWide) = Spec.obj witnessWide := by decide
 
 /-! ## The defects of the original Envoy request context, at concrete witnesses (`Impl.original`) -/
 
